@@ -393,4 +393,26 @@ PROPS = {
             {"pkg": S, "test": "TestVerifC01", "race": True, "quick": (8, 25), "thorough": (16, 1500), "timeout_q": 1500, "gomaxprocs": [2, 4, 8]},
         ],
     },
+    "C12": {
+        "level": "exploration",
+        "claim": ("A scripted peer with generated GR / LLGR capabilities (N bit, restart time 4/12/30 s, IPv4 and/or IPv6 listed, LLGR "
+                  "per family, long-lived time 6/20 s) announces 1-5 IPv4/IPv6 routes (some with NO_LLGR) to a real BgpServer with "
+                  "generated GR / notification / LLGR configuration; the session is lost in one of six ways (transport close, hold "
+                  "timer expiry, NOTIFICATION Cease or UPDATE error with or without the N bit negotiated, Hard Reset, administrative "
+                  "shutdown). The harness then steps through virtual time — right after the loss, one second before and after the "
+                  "restart timer, one second before and after the long-lived timer — or lets the peer come back inside the window "
+                  "(6 s, 8 s or one second before expiry), re-announce a generated subset and send End-of-RIB per family in generated "
+                  "order with gaps of 0-40 s (also beyond the original restart time). At every instant the Loc-RIB (presence, stale "
+                  "flag, LLGR_STALE) and the wire views of two observers (one LLGR-capable, one not) are compared with a reference "
+                  "model of RFC 4724 / 8538 / 9494 as summarised by the property."),
+        "note": ("Not generated: the restarting-speaker side (deferral of the server's own advertisements), a second loss during the "
+                 "restart window, GR capabilities that differ between the two sessions (forwarding bit cleared, family dropped), "
+                 "restart time 0, depreference of LLGR-stale routes against fresh ones."),
+        "technique": "model-based property testing (rapid) of session-loss timelines in virtual time against a reference model of stale-route lifetime",
+        "rule": ("non-trivial when the loss is graceful under the reference (routes are retained as stale) ; distinct by case hash"),
+        "assumptions": [],
+        "units": [
+            {"pkg": S, "test": "TestVerifC12", "quick": (16, 120), "thorough": (16, 12000), "timeout_q": 1500},
+        ],
+    },
 }
